@@ -119,6 +119,9 @@ pub(crate) struct LiveEvents<'a> {
 
     /// Error reference that is checked at the end of parsing.
     error: Rc<RefCell<Option<std::io::Error>>>,
+    /// Set once a reader error has been reported. The input is truncated at that point, so
+    /// nothing that the parser still has buffered may be served as a further document.
+    io_failed: std::cell::Cell<bool>,
 }
 
 /// A single alias-replay stack frame (one active `*alias` expansion).
@@ -193,6 +196,7 @@ impl<'a> LiveEvents<'a> {
             seen_doc_end: false,
 
             error,
+            io_failed: std::cell::Cell::new(false),
         }
     }
 }
@@ -242,6 +246,7 @@ impl<'a> LiveEvents<'a> {
 
             // Error field is provided but for string, nothing is ever reported
             error: Rc::new(RefCell::new(None)),
+            io_failed: std::cell::Cell::new(false),
         }
     }
 
@@ -758,6 +763,7 @@ impl<'a> LiveEvents<'a> {
     #[cold]
     fn io_error(&self) -> Result<(), Error> {
         if let Some(error) = self.error.take() {
+            self.io_failed.set(true);
             Err(Error::IOError { cause: error })
         } else {
             Ok(())
@@ -851,6 +857,10 @@ impl<'a> LiveEvents<'a> {
     /// Returns `true` if a new document was found, `false` if EOF was reached.
     /// Syntax errors during skipping cause the method to return `false` (EOF-like).
     pub(crate) fn skip_to_next_document(&mut self) -> bool {
+        // After a reader error the rest of the input is missing: there is no next document.
+        if self.io_failed.get() {
+            return false;
+        }
         // Clear any peeked event and injection state
         self.look = None;
         self.inject.clear();
